@@ -39,6 +39,16 @@ def job(j):
         with warnings.catch_warnings(record=True):
             warnings.simplefilter('always')
             lib = GroupLibrary.Load(j['spec'])
+        if j.get('after_update'):
+            # this process has loaded the library before and merged ANOTHER one into that object, overwriting: a library loaded
+            # afterwards is what the files say, not what some other object was turned into
+            try:
+                lib.Update(GroupLibrary.Load(j['after_update']), overwrite=True)
+            except Exception:
+                pass
+            with warnings.catch_warnings(record=True):
+                warnings.simplefilter('always')
+                lib = GroupLibrary.Load(j['spec'])
         fp, n = fingerprint(lib)
         return {'fp': fp, 'n': n, 'path': lib.path}
     if op == 'audit':
